@@ -47,8 +47,12 @@ func askDriver(ctx *core.Ctx, op string, args any) (json.RawMessage, error) {
 	return w.Out, nil
 }
 
-func fanPrefix(n int) []string {
-	p := []string{"mRead", "mSpawnC"}
+// fanPrefix: the two steps of the caller that precede its first yield (read of the field, start of the collector).
+func fanPrefix() []string { return []string{"mRead", "mSpawnC"} }
+
+// fanSpawnAll: the prefix followed by every spawn (in list order: the scheduler binds real services to model ones).
+func fanSpawnAll(n int) []string {
+	p := fanPrefix()
 	for v := 0; v < n; v++ {
 		p = append(p, "mSpawn:"+strconv.Itoa(v))
 	}
@@ -97,7 +101,10 @@ func permutations(n int) [][]int {
 // completionPlan: workers complete in the order `perm`; the collector runs eagerly / lazily / after every worker reached its send.
 func completionPlan(res []int, perm []int, mode string) []string {
 	n := len(res)
-	plan := fanPrefix(n)
+	plan := fanSpawnAll(n)
+	if mode == "serial" || mode == "serial-lazy" {
+		plan = fanPrefix()
+	}
 	step := func(v int, k int) {
 		ls := []string{"wBegin", "wReturn", "wSend", "wExit"}
 		if res[v] < 0 {
@@ -130,6 +137,16 @@ func completionPlan(res []int, perm []int, mode string) []string {
 			step(v, 2)
 			plan = append(plan, "cRecv", "cStore")
 		}
+	case "serial", "serial-lazy": // every worker finishes before the next one is even spawned
+		for _, v := range perm {
+			plan = append(plan, "mSpawn:"+strconv.Itoa(v))
+			for k := 0; k < 4; k++ {
+				step(v, k)
+			}
+			if mode == "serial" {
+				plan = append(plan, "cRecv", "cStore", "cCtxDone", "cReturn")
+			}
+		}
 	case "waitfirst":
 		plan = append(plan, "mWait")
 		for _, v := range perm {
@@ -144,6 +161,7 @@ func completionPlan(res []int, perm []int, mode string) []string {
 func runC19(ctx *core.Ctx) {
 	runC19Race(ctx)
 	ctx.Wait()
+	runC19Trav(ctx)
 	runC19Fanout(ctx)
 }
 
@@ -153,7 +171,7 @@ func runC19Fanout(ctx *core.Ctx) {
 	maxExh := ctx.Pick(1, 2)
 	for n := 0; n <= maxExh; n++ {
 		for _, res := range allRes(n) {
-			out, err := askDriver(ctx, "fanout.enum", map[string]any{"res": res, "limit": 200000, "prefix": fanPrefix(n)})
+			out, err := askDriver(ctx, "fanout.enum", map[string]any{"res": res, "limit": 400000, "prefix": fanPrefix()})
 			if err != nil {
 				ctx.Note("fanout.enum failed: %v", err)
 				continue
@@ -189,8 +207,8 @@ func runC19Fanout(ctx *core.Ctx) {
 		}
 		for _, perm := range permutations(n) {
 			for _, res := range ress {
-				for _, mode := range []string{"eager", "lazy", "mid", "waitfirst"} {
-					if n >= 5 && (mode == "lazy" || mode == "waitfirst") {
+				for _, mode := range []string{"eager", "lazy", "mid", "waitfirst", "serial", "serial-lazy"} {
+					if n >= 5 && (mode == "lazy" || mode == "waitfirst" || mode == "serial-lazy") {
 						continue
 					}
 					ctx.Count("fanout:completion-order:" + mode)
@@ -211,7 +229,7 @@ func runC19Fanout(ctx *core.Ctx) {
 					res[v] = -1
 				}
 			}
-			out, err := askDriver(ctx, "fanout.sample", map[string]any{"res": res, "seed": ctx.Rng.Intn(1 << 30), "count": k, "prefix": fanPrefix(n)})
+			out, err := askDriver(ctx, "fanout.sample", map[string]any{"res": res, "seed": ctx.Rng.Intn(1 << 30), "count": k, "prefix": fanPrefix()})
 			if err != nil {
 				ctx.Note("fanout.sample failed: %v", err)
 				continue
